@@ -86,3 +86,18 @@ func ipToSockaddr(family int, ip net.IP, port int, zone string) (unix.Sockaddr, 
 	}
 	return nil, &net.AddrError{Err: "invalid address family", Addr: ip.String()}
 }
+
+// boundPort returns the local port of a bound IP socket, 0 if it can't be determined.
+func boundPort(fd int) int {
+	sa, err := unix.Getsockname(fd)
+	if err != nil {
+		return 0
+	}
+	switch sa := sa.(type) {
+	case *unix.SockaddrInet4:
+		return sa.Port
+	case *unix.SockaddrInet6:
+		return sa.Port
+	}
+	return 0
+}
